@@ -38,6 +38,11 @@ def rdf_ineligible(d):
         if not isinstance(q, QualifiedName):
             return False
         p = q.namespace.prefix
+        if "/" in q.localpart or "#" in q.localpart:
+            # not writable as a Turtle prefixed name: rdflib then writes the full IRI and
+            # drops the (unused) @prefix line, so the declaration never reaches the reader -
+            # the situation the quantifier's first clause exists to exclude
+            return False
         return bool(p) and declared.get(p) == q.namespace.uri
 
     kinds_by_id = {}
@@ -160,6 +165,7 @@ class C07(RoundTrip):
             "mask": rng.choice(["first2", "first2", "all"]),
             "mention": False,
             "rdf_safe": True,
+            "odd_locals": False,
             "p_clash": rng.choice([0.0, 0.2]),
             "p_reuse_id": rng.choice([0.0, 0.1, 0.3]),
             "p_anon": rng.choice([0.2, 0.5, 0.8]),
